@@ -1,1 +1,3 @@
-//! verification hook (cfg pendulum_project_ntpd_rs_verif only)
+//! verification hook (cfg pendulum_project_ntpd_rs_verif only): re-exports of private daemon items
+pub use super::server::{ServerStats, ServerTask};
+pub use super::config::ServerConfig as DaemonServerConfig;
